@@ -161,4 +161,46 @@ theorem dKidsOk_congr {fs fs' : FS} {budget : Nat} {q : Path} (kids : List (Str 
       dKidsOk_congr r (fun n' k' hm => h n' k' (List.mem_cons_of_mem _ hm)) hok.2.2.2⟩
 end
 
+/-! ## classifying a source tree against a file system  (executed by the check: `pdshmodel pcp deep`) -/
+
+mutual
+/-- what the target makes of each node of the source tree `t` sent under the name `n` into the directory `q`.
+(An existing regular FILE at the place of a regular file is replaced -- `copy_onto_existing` --, not a
+disagreement in kind; it is classified `good` and then falls outside `DOk`, which asks for a fresh name.) -/
+def classifyD (fs : FS) (q : Path) (n : Str) : Tree → DTree
+  | .file m t a d =>
+    match fs (q ++ [n]) with
+    | some (.dir _ _) => .blockedFile m t a d
+    | _ => .good (.file m t a d)
+  | .dir m t a kids =>
+    match fs (q ++ [n]) with
+    | some (.file _ _ _) => .refusedDir m t a kids
+    | some (.dir _ _) => .into m t a (classifyKids fs (q ++ [n]) kids)
+    | none => .good (.dir m t a kids)
+def classifyKids (fs : FS) (q : Path) : List (Str × Tree) → List (Str × DTree)
+  | [] => []
+  | (n, k) :: r => (n, classifyD fs q n k) :: classifyKids fs q r
+end
+
+mutual
+/-- the classification is a classification OF THE SOURCE: the client sees the tree it was given -/
+theorem classifyD_src (fs : FS) (q : Path) (n : Str) (t : Tree) : (classifyD fs q n t).src = t := by
+  cases t with
+  | file m t a d =>
+    unfold classifyD
+    split <;> rfl
+  | dir m t a kids =>
+    unfold classifyD
+    split
+    · rfl
+    · simp only [DTree.src, classifyKids_src fs (q ++ [n]) kids]
+    · rfl
+theorem classifyKids_src (fs : FS) (q : Path) (kids : List (Str × Tree)) : dsrcs (classifyKids fs q kids) = kids := by
+  cases kids with
+  | nil => rfl
+  | cons nk r =>
+    obtain ⟨n, k⟩ := nk
+    simp only [classifyKids, dsrcs, classifyD_src fs q n k, classifyKids_src fs q r]
+end
+
 end PdshVerif.Pcp
